@@ -113,7 +113,9 @@ func (a *attacker) bestCert() (hotstuff.SyncInfo, int) {
 	for k := range a.blk {
 		keys = append(keys, k)
 	}
-	sort.Slice(keys, func(i, j int) bool { return keys[i][0] > keys[j][0] || (keys[i][0] == keys[j][0] && keys[i][1] < keys[j][1]) })
+	sort.Slice(keys, func(i, j int) bool {
+		return keys[i][0] > keys[j][0] || (keys[i][0] == keys[j][0] && keys[i][1] < keys[j][1])
+	})
 	for _, k := range keys {
 		if k[0] == 0 {
 			continue
@@ -257,7 +259,9 @@ func (a *attacker) certifiedTips() [][2]int {
 			tips = append(tips, k)
 		}
 	}
-	sort.Slice(tips, func(i, j int) bool { return tips[i][0] < tips[j][0] || (tips[i][0] == tips[j][0] && tips[i][1] < tips[j][1]) })
+	sort.Slice(tips, func(i, j int) bool {
+		return tips[i][0] < tips[j][0] || (tips[i][0] == tips[j][0] && tips[i][1] < tips[j][1])
+	})
 	return tips
 }
 
